@@ -23,6 +23,7 @@ from harness.core import PropSpec, Result, Ctx, Violation
 from harness import gen_patterns as gp
 from harness import gen_cluster as gc
 from harness.cluster import Cluster, hist_key
+from harness import predlang as pl
 from harness.cluster_suite import Runner, model_check_traces
 
 P = gp.pattern
@@ -103,6 +104,23 @@ def run_one(sc):
         except Exception as e:
             bad = ('component-raised', f"{e.__class__.__name__}: {e}", k)
             break
+        # survivors hold exactly the single engine's partially completed runs (pattern, position, history content)
+        def partial(inst):
+            out = Counter()
+            for r in inst.decider.all_runs():
+                f = pl.show_rec(r.serialize()).split('|')        # id|phen|pat|idx|hist
+                out[(f[1], f[2], f[3], hist_key(f[4]))] += 1
+            return out
+        pref = partial(single)
+        for n in alive:
+            pgot = partial(c.insts[n])
+            if pgot != pref:
+                bad = ('failover-divergence',
+                       f"after input {k} ({d} at {tgt}) instance {n} holds partial runs {sorted((pgot - pref).elements())[:2] or '-'} the single "
+                       f"engine does not hold, and misses {sorted((pref - pgot).elements())[:2] or '-'}", k)
+                break
+        if bad:
+            break
         ref = Counter((e[1], hist_key(e[2])) for e in single.cerec.events)
         for n in alive:
             got = Counter((e[1], hist_key(e[2])) for e in c.insts[n].cerec.events)
@@ -156,6 +174,15 @@ def run(ctx: Ctx) -> Result:
                     for crashed in ([[]] if crash_at is None else [['A'], ['B']]):
                         scs.append({'names': ['A', 'B'], 'phens': LOOPY_INERT if st[1] == 1 else gc.CONFLICT, 'cache': 1000,
                                     'stream': st, 'assign': list(assign), 'crash_at': crash_at, 'crashed': crashed})
+        # three instances without finished-run memory: one instance processes the whole stream, another one is lost at
+        # every point (its backlog grows on the processing instance while the third one keeps being served)
+        for proc in 'ABC':
+            for lost in 'ABC':
+                if lost == proc:
+                    continue
+                for crash_at in (0, 1, 2, 3):
+                    scs.append({'names': ['A', 'B', 'C'], 'phens': gc.CONFLICT, 'cache': 0, 'stream': [0, 1, 2, 3],
+                                'assign': [proc] * 4, 'crash_at': crash_at, 'crashed': [lost]})
     for sc in scs:
         bad, holder, fb = run_one(sc)
         holders.append(holder)
